@@ -16,6 +16,23 @@ from ..core import MachineryError, NCPU
 from .. import lib_units as L
 from .C17 import MUTS, _consts, _write
 
+CLAUSE = {'R': 'RoundTripCompletes', 'OU': 'OriginalUntouched', 'T': 'SameText', 'E': 'Equal', 'S': 'ScopesReattached',
+          'ST': 'ScopesReattached:types', 'EQ': 'Equal:__eq__', 'EH': 'Equal:__hash__'}
+
+
+TAGSET = {'ow': 'owners', 'mp': 'memparent', 'mt': 'memtab', 'ca': 'calls', 'td': 'tdef'}
+
+
+def expand(code):
+    head, _, rest = code.partition(':')
+    return CLAUSE.get(head, head) + (':' + TAGSET.get(rest, rest) if rest else '')
+
+
+def codes(verdict):
+    ok, text, _ = verdict
+    return [] if ok else [c for c in text.split(';') if c]
+
+
 KINDS = ('sub', 'func', 'mod', 'file')      # top-level units (a unit pickled without its host loses host association)
 MUT_EXPECT = {'MutNoRescope': 'ScopesReattached', 'MutStaleProcs': 'ScopesReattached', 'MutShareBody': 'ScopesReattached'}
 
@@ -61,14 +78,17 @@ def roundtrip(fx):
         case['raised_msg'] = str(ex)[:200]
     case['o_after'] = L.project(o, u, None, tok)
     if u is not None:
-        case['u'] = L.project(u, o, None, tok)
-        case['types_u'] = type_strings(u)
-        case['equal'] = bool(new == o.root)
         try:
+            case['u'] = L.project(u, o, None, tok)
+            case['types_u'] = type_strings(u)
+            case['equal'] = bool(new == o.root)
             case['hasheq'] = hash(new) == hash(o.root)
-        except TypeError:
-            case['hasheq'] = True      # unhashable on both sides: nothing to compare
-    else:
+        except Exception as ex:  # pylint: disable=broad-except
+            # the unpickled object cannot even be inspected / printed / compared
+            case['raised'] = 'Unusable' + type(ex).__name__
+            case['raised_msg'] = str(ex)[:200]
+            u = None
+    if u is None:
         case['u'] = case['o_after']
         case['types_u'] = case['types_o']
     return case
@@ -152,53 +172,41 @@ def run(ctx):
             ctx.cover['design_mutants_rejected'] = len(futs) - 1
         verdicts = ctx.validate('Trace_PickleRT', 'Trace_PickleRT', cases, timeout=900,
                                 shards=max(1, min(3 if quick else 12, len(cases) // 60)))
-        failing = [(i, verdicts[i][1]) for i in range(len(cases)) if not verdicts[i][0]]
-        for i, clause in failing:
-            if clause.startswith('Fixture'):
-                raise MachineryError(f'{clause}\n{fxs[i]["main"]}')
-        # shrink: which feature switches are essential for each failure?  (one more TLC batch over the variants)
-        variants, owner = [], []
-        for i, clause in failing:
-            on = [f for f in L.FEATURES if fxs[i]['feat'][f]]
-            for f in on:
-                feat = dict(fxs[i]['feat'])
-                feat[f] = False
-                if f == 'defs' or (feat['defs'] and not (feat['imp_k'] or feat['imp_ot'] or feat['imp_proc'])):
-                    feat['defs'] = False
-                variants.append(L.gen_fixture(fxs[i]['kind'], None, feat, seed=fxs[i]['seed']))
-                owner.append((i, f))
-        essential = {i: set() for i, _ in failing}
-        if variants:
-            vres = pool.map(_chunk, [variants[k::workers] for k in range(workers)]) if pool is not None else [_chunk(variants)]
-            vcases = [None] * len(variants)
-            if pool is not None:
-                for ci, res in enumerate(vres):
-                    for j, r in enumerate(res):
-                        vcases[ci + j * workers] = r
-            else:
-                vcases = list(vres)[0]
-            for c in vcases:
-                if 'error' in c:
-                    raise MachineryError(f"harness failure while shrinking: {c['error']}\n{c['tb']}")
-            vv = ctx.validate('Trace_PickleRT', 'Trace_PickleRT', vcases, timeout=900, shards=max(1, min(3, len(vcases) // 60)))
-            for k, (i, f) in enumerate(owner):
-                if vv[k][0] or vv[k][1] != verdicts[i][1]:
-                    essential[i].add(f)
+        failing = [i for i in range(len(cases)) if not verdicts[i][0]]
+        for i in failing:
+            if verdicts[i][1].startswith('Fixture'):
+                raise MachineryError(f'{verdicts[i][1]}\n{fxs[i]["main"]}')
+        # normal form of a violation: the violated clause + the smallest set of generator switches with which the
+        # same clause is violated for the same unit kind (looked up among the bounded-exhaustive grid cases, which
+        # were judged by TLC in the same batch -- no oracle in python)
+        grid = {}
+        for i, c in enumerate(cases):
+            on = frozenset(f for f in L.FEATURES if c['feat'][f])
+            grid.setdefault(c['kind'], {}).setdefault(on, set()).update(codes(verdicts[i]))
+        essential = {}
+        for i in failing:
+            on = frozenset(f for f in L.FEATURES if cases[i]['feat'][f])
+            for code in codes(verdicts[i]):
+                cands = [g for g, cs in grid[cases[i]['kind']].items() if g <= on and code in cs]
+                best = min(cands, key=lambda g: (len(g), sorted(g)))
+                # switches that only select which units exist do not belong to the cause unless they are needed
+                essential[(i, code)] = best
     finally:
         if pool is not None:
             pool.shutdown(wait=True, cancel_futures=True)
-    for i, clause in failing:
+    for i in failing:
         c = cases[i]
-        key = f"{clause}:{'+'.join(sorted(essential[i])) or 'any'}"
-        ctx.violation(key, f"kind={c['kind']} features={c['feat']}: clause {clause} violated "
-                           f"(raised={c['raised']} {c.get('raised_msg', '')} equal={c['equal']} hash_equal={c['hasheq']}; "
-                           f"type differences={[(a, b) for a, b in zip(c['types_o'], c['types_u']) if a != b][:4]}; "
-                           f"unpickled tags owners={c['u']['owners']} memparent={c['u']['memparent']} memtab={c['u']['memtab']} "
-                           f"calls={c['u']['calls']} tdef={c['u']['tdef']})", {'fx': fxs[i]})
+        for code in codes(verdicts[i]):
+            clause = expand(code)
+            key = f"{clause}:{'+'.join(sorted(essential[(i, code)])) or 'plain'}"
+            ctx.violation(key, f"kind={c['kind']} features={c['feat']}: clause {clause} violated "
+                               f"(raised={c['raised']} {c.get('raised_msg', '')} equal={c['equal']} hash_equal={c['hasheq']}; "
+                               f"type differences={[(a, b) for a, b in zip(c['types_o'], c['types_u']) if a != b][:4]}; "
+                               f"unpickled tags owners={c['u']['owners']} memparent={c['u']['memparent']} memtab={c['u']['memtab']} "
+                               f"calls={c['u']['calls']} tdef={c['u']['tdef']})", {'fx': fxs[i]})
     ctx.cover['round_trips'] = len(cases)
     ctx.cover['kinds_x_feature_combinations'] = len({(c['kind'], tuple(sorted(c['feat'].items()))) for c in cases})
     ctx.cover['symbol_occurrences_compared'] = sum(len(c['types_o']) for c in cases)
-    ctx.cover['shrink_variants_validated'] = len(variants)
     ctx.sample({'kind': cases[0]['kind'], 'feat': cases[0]['feat'], 'source': fxs[0]['main'], 'types': cases[0]['types_o'][:6]})
     ctx.sample({'kind': cases[-1]['kind'], 'feat': cases[-1]['feat'], 'unpickled_view': {k: cases[-1]['u'][k] for k in ('name', 'tab', 'members', 'owners', 'memtab', 'calls', 'tdef')}})
     ctx.assumptions += [
